@@ -427,7 +427,7 @@ theorem posti_root (K : Keys) (C : Pos → Prop) (H : BB → Prop) (hC : MateCla
       PostI (TInv H) (CS K q a b) (negamax K fuel q a b (depth' - 1) 1 cn pm) := by
     intro q hrc a b cn pm hw
     obtain ⟨m, hmg, hq, hleg⟩ := hrc
-    have hcq : C q := hC.move root m q hp hq hleg
+    have hcq : C q := hC.move root m q hp (Or.inl (List.mem_map.2 ⟨m % 65536, hmg, Nat.mod_mod _ _⟩)) hq hleg
     have hinv := posti_negamax_inv K C H hC fuel q hcq a b (depth' - 1) 1 cn pm hw (by omega)
     by_cases hm : Mated K q
     · refine posti_mono (posti_and hinv (posti_negamax_checkmated K H fuel q a b (depth' - 1) 1 cn pm hm
